@@ -57,9 +57,56 @@ class _Pick(ast.NodeTransformer):
         return self.generic_visit(node)
 
 
+def _norm_test(e: ast.expr) -> ast.expr:
+    """spelling variants of one predicate: `a < b < c` -> `a < b and b < c`; `x in (c1, c2)` -> `x == c1 or x == c2`
+    (constants only); `len(x) > 0` / `len(x) != 0` / `len(x) >= 1` -> `x`; `len(x) == 0` / `len(x) < 1` -> `not x`"""
+    if isinstance(e, ast.BoolOp):
+        return ast.copy_location(ast.BoolOp(op=e.op, values=[_norm_test(v) for v in e.values]), e)
+    if isinstance(e, ast.UnaryOp) and isinstance(e.op, ast.Not):
+        return ast.copy_location(ast.UnaryOp(op=e.op, operand=_norm_test(e.operand)), e)
+    if isinstance(e, ast.IfExp):
+        return ast.copy_location(ast.IfExp(test=_norm_test(e.test), body=_norm_test(e.body), orelse=_norm_test(e.orelse)), e)
+    if not isinstance(e, ast.Compare):
+        return e
+    if len(e.ops) > 1:
+        parts = []
+        left = e.left
+        for op, right in zip(e.ops, e.comparators):
+            parts.append(_norm_test(ast.copy_location(ast.Compare(left=left, ops=[op], comparators=[right]), e)))
+            left = right
+        return ast.copy_location(ast.BoolOp(op=ast.And(), values=parts), e)
+    op, l, r = e.ops[0], e.left, e.comparators[0]
+    if isinstance(op, (ast.In, ast.NotIn)) and isinstance(r, (ast.Tuple, ast.List, ast.Set)) and 1 <= len(r.elts) <= 4 and all(isinstance(x, ast.Constant) for x in r.elts):
+        eqs = [ast.copy_location(ast.Compare(left=l, ops=[ast.Eq()], comparators=[x]), e) for x in r.elts]
+        out: ast.expr = eqs[0] if len(eqs) == 1 else ast.copy_location(ast.BoolOp(op=ast.Or(), values=eqs), e)
+        return out if isinstance(op, ast.In) else ast.copy_location(ast.UnaryOp(op=ast.Not(), operand=out), e)
+    def is_len(x: ast.expr) -> T.Optional[ast.expr]:
+        if isinstance(x, ast.Call) and isinstance(x.func, ast.Name) and x.func.id == 'len' and len(x.args) == 1 and not x.keywords:
+            return x.args[0]
+        return None
+    subj = is_len(l)
+    if subj is not None and isinstance(r, ast.Constant) and type(r.value) is int:
+        c = r.value
+        truthy = (isinstance(op, ast.Gt) and c == 0) or (isinstance(op, ast.NotEq) and c == 0) or (isinstance(op, ast.GtE) and c == 1)
+        falsy = (isinstance(op, ast.Eq) and c == 0) or (isinstance(op, ast.Lt) and c == 1) or (isinstance(op, ast.LtE) and c == 0)
+        if truthy:
+            return subj
+        if falsy:
+            return ast.copy_location(ast.UnaryOp(op=ast.Not(), operand=subj), e)
+    return e
+
+
 class _Prep(ast.NodeTransformer):
     def visit_FunctionDef(self, n: ast.FunctionDef) -> ast.AST:
         return n
+
+    def visit_If(self, n: ast.If) -> ast.AST:
+        n.test = _norm_test(n.test)
+        return self.generic_visit(n)
+
+    def visit_While(self, n: ast.While) -> ast.AST:
+        n.test = _norm_test(n.test)
+        return self.generic_visit(n)
 
     visit_AsyncFunctionDef = visit_FunctionDef  # type: ignore[assignment]
     visit_Lambda = visit_FunctionDef  # type: ignore[assignment]
@@ -75,9 +122,9 @@ class _Prep(ast.NodeTransformer):
         if pa.test is None:
             return n
         b = pb.visit(copy.deepcopy(n))
-        node = ast.copy_location(ast.If(test=pa.test, body=[a], orelse=[b]), n)
+        node = ast.copy_location(ast.If(test=_norm_test(pa.test), body=[a], orelse=[b]), n)
         ast.fix_missing_locations(node)
-        return self.visit(node)
+        return self.generic_visit(node)
 
     visit_Assign = _simple       # type: ignore[assignment]
     visit_AnnAssign = _simple    # type: ignore[assignment]
@@ -149,6 +196,73 @@ def prepare(stmts: T.List[ast.stmt]) -> T.List[ast.stmt]:
 # ---------------------------------------------------------------------------
 _COMPS = (ast.ListComp, ast.SetComp, ast.GeneratorExp, ast.DictComp)
 
+# ---------------------------------------------------------------------------
+# call canonicalisation: arguments are bound to the callee's parameters by signature, so that
+# `f(a, b)`, `f(a, y=b)` and `f(x=a, y=b)` (and `Class.m(self, a)` / `self.m(a)`) print the same.
+_SIGS: T.Dict[str, T.Optional[T.Tuple[T.Tuple[str, ...], T.Tuple[str, ...]]]] = {}
+_CLASSES: T.Set[str] = set()
+_SIG_KEY: T.Tuple[str, ...] = ()
+
+
+def set_signatures(*mods: T.Any) -> None:
+    """Signatures of the functions / methods of the analysed modules, by callee name; a name defined with
+    different parameter lists is ambiguous and its calls are left as written."""
+    global _SIG_KEY
+    key = tuple(f'{m.rel}:{m.digest}' for m in mods)
+    if key == _SIG_KEY:
+        return
+    _SIGS.clear()
+    _CLASSES.clear()
+    for m in mods:
+        _CLASSES.update(q for q in m.classes() if '.' not in q)
+        for q, f in m.funcs().items():
+            a = f.args
+            pos = [p.arg for p in a.posonlyargs + a.args]
+            static = any((d.attr if isinstance(d, ast.Attribute) else getattr(d, 'id', '')) == 'staticmethod' for d in f.decorator_list)
+            if '.' in q and pos and pos[0] in ('self', 'cls') and not static:
+                pos = pos[1:]
+            if a.vararg or a.kwarg:
+                sig = None
+            else:
+                sig = (tuple(pos), tuple(p.arg for p in a.kwonlyargs))
+            name = f.name
+            if name in _SIGS and _SIGS[name] != sig:
+                _SIGS[name] = None
+            else:
+                _SIGS[name] = sig
+    _SIG_KEY = key
+
+
+def canon_call(c: ast.Call) -> ast.Call:
+    f = c.func
+    if isinstance(f, ast.Attribute) and isinstance(f.value, ast.Name) and f.value.id in _CLASSES and c.args and isinstance(c.args[0], ast.Name) and c.args[0].id == 'self':
+        c = ast.Call(func=ast.Attribute(value=c.args[0], attr=f.attr, ctx=ast.Load()), args=list(c.args[1:]), keywords=list(c.keywords))
+        f = c.func
+    name = f.attr if isinstance(f, ast.Attribute) else (f.id if isinstance(f, ast.Name) else None)
+    sig = _SIGS.get(name) if name else None
+    if sig is None or not c.keywords:
+        return c
+    pos, kwonly = sig
+    if any(isinstance(a, ast.Starred) for a in c.args) or any(k.arg is None for k in c.keywords) or len(c.args) > len(pos):
+        return c
+    bound: T.Dict[str, ast.AST] = dict(zip(pos, c.args))
+    for k in c.keywords:
+        if k.arg in bound or (k.arg not in pos and k.arg not in kwonly):
+            return c
+        bound[k.arg] = k.value  # type: ignore[index]
+    args: T.List[ast.AST] = []
+    for p in pos:
+        if p in bound:
+            args.append(bound[p])
+        else:
+            break
+    rest = [p for p in list(pos[len(args):]) + list(kwonly) if p in bound]
+    kws = [ast.keyword(arg=p, value=bound[p]) for p in rest]
+    if len(args) == len(c.args) and [k.arg for k in kws] == [k.arg for k in c.keywords]:
+        return c
+    return ast.Call(func=c.func, args=args, keywords=kws)
+
+
 
 def _bound_names(t: ast.AST) -> T.Set[str]:
     return {x.id for x in ast.walk(t) if isinstance(x, ast.Name)}
@@ -202,8 +316,10 @@ def fsub(env: T.Dict[str, ast.AST], e: T.Any, blocked: T.FrozenSet[str] = frozen
         else:
             vals[name] = old
     if not changed:
-        return e
+        return canon_call(e) if isinstance(e, ast.Call) else e
     node = e.__class__(**vals)
+    if isinstance(node, ast.Call):
+        node = canon_call(node)
     return ast.copy_location(node, e) if hasattr(e, 'lineno') else node
 
 
@@ -720,6 +836,8 @@ def chain_sources(it: ast.AST) -> T.List[ast.AST]:
         if isinstance(e, ast.Call) and isinstance(e.func, ast.Attribute) and e.func.attr == 'items' and not e.args:
             return e.func.value
         raise Undecided(f'loop does not iterate over the items of a mapping: {short(e)}')
+    while isinstance(it, ast.Call) and isinstance(it.func, ast.Name) and it.func.id in ('list', 'tuple', 'iter') and len(it.args) == 1 and not it.keywords:
+        it = it.args[0]   # materialising the sequence does not change its order
     if isinstance(it, ast.Call):
         f = it.func
         name = f.attr if isinstance(f, ast.Attribute) else (f.id if isinstance(f, ast.Name) else '')
